@@ -219,9 +219,27 @@ func mix(x uint64) uint64 {
 	return x ^ x>>31
 }
 
+// SpellRaw8 is the Spelling seed for: every octet >= 0x80 written raw, everything else as EscName
+// writes it (one fixed spelling per name, so equal text still means equal octets).
+const SpellRaw8 = 1 << 63
+
 func libName(n Name) string {
 	if spellSeed == 0 || len(n) == 0 {
 		return EscName(n)
+	}
+	if spellSeed == SpellRaw8 {
+		var sb strings.Builder
+		for _, l := range n {
+			for _, b := range l {
+				if b >= 0x80 {
+					sb.WriteByte(b)
+				} else {
+					sb.WriteString(EscLabel([]byte{b}))
+				}
+			}
+			sb.WriteByte('.')
+		}
+		return sb.String()
 	}
 	spellCtr++
 	h := mix(spellSeed ^ mix(spellCtr))
@@ -257,7 +275,7 @@ func libName(n Name) string {
 func libIP4(b []byte) net.IP {
 	ip := make(net.IP, 4)
 	copy(ip, b)
-	if spellSeed == 0 {
+	if spellSeed == 0 || spellSeed == SpellRaw8 {
 		return ip
 	}
 	spellCtr++
@@ -271,7 +289,7 @@ func libIP4(b []byte) net.IP {
 // domain): under a Spelling it is sometimes written without the final dot.
 func libRelName(n Name) string {
 	s := libName(n)
-	if spellSeed == 0 || len(n) == 0 {
+	if spellSeed == 0 || spellSeed == SpellRaw8 || len(n) == 0 {
 		return s
 	}
 	spellCtr++
